@@ -130,6 +130,16 @@ CHECKS["C13"] = dict(
     design="5/C13",
 )
 
+CHECKS["C08"] = dict(
+    technique="generated (library, client) module pairs with adversarial names; differential execution oracle (client run against the original and the rewritten library, in-process) plus a structural oracle over preserved definitions, through format_code(preserve=...), the files CLI with --preserve and --from-stdin",
+    text="Libraries built from function / variable / class templates (instance, self-less, static, class methods, properties, class and instance "
+         "attributes, subclasses, duplicate functions) with names in every convention are rewritten with the names a generated client uses "
+         "preserved - via format_code(preserve=P), 'pyrefact lib.py --preserve client.py' and '--from-stdin --preserve'; every preserved "
+         "definition must still be defined where it was and the client must print the same output.",
+    note="Preserve sets come from the generator's metadata, not from pyrefact's own extraction; dynamic access and star imports of the library are not generated.",
+    design="5/C08",
+)
+
 CHECKS["C14"] = dict(
     technique="differential property test against a tree-level reference substitution: generated (pattern, replacement, source, count) cases; a parallel walk of source tree and result tree must explain every difference as a reference match replaced by the template instantiated on trees with that match's bindings",
     text="Patterns (expression, statement, statement-sequence) derived from repository examples and directed sources are substituted with marker "
